@@ -57,6 +57,14 @@ let model _ l =
           | None -> "MODELERR")
        | (Model.BnbNone w, _) -> "none " ^ (if w then "w" else "p")
        | (Model.BnbErr, _) -> "UB")
+    | Model.ACG ->
+      (match Model.coin_grinder c.prm.Model.p_sffo c.pool c.prm.Model.p_target c.prm.Model.p_change_target c.prm.Model.p_maxw with
+       | (Model.BnbSome (_, _, _, completed, tries), orig) ->
+         (match Model.result_of c.prm c.pool (Model.sort_nat orig) completed with
+          | Some r -> show_result c r (string_of_z tries)
+          | None -> "MODELERR")
+       | (Model.BnbNone w, _) -> "none " ^ (if w then "w" else "p")
+       | (Model.BnbErr, _) -> "UB")
     | _ -> "*" in
   pool_txt c ^ " R " ^ res
 
